@@ -40,7 +40,7 @@ func checkC16(c *Ctx) {
 	if !c.Anchor("R16.1", "zapcore.consoleEncoder.EncodeEntry", fn != nil) {
 		return
 	}
-	name := fn.String()
+	name := FStr(fn)
 	type site struct {
 		n    string
 		in   ssa.Instruction
@@ -84,25 +84,25 @@ func checkC16(c *Ctx) {
 			continue
 		}
 		switch {
-		case f.Name() == "FullNameEncoder" && len(args) == 2 && bd(args[0]) == "ent.LoggerName":
+		case FNm(f) == "FullNameEncoder" && len(args) == 2 && bd(args[0]) == "ent.LoggerName":
 			// the default name encoder called directly (instead of through a defaulted function value)
 			sites = append(sites, site{"name", call, []string{`cfg.NameKey != ""`, `ent.LoggerName != ""`}})
-		case f.Name() == "AppendString" && len(args) == 2 && bd(args[1]) == "ent.Caller.Function":
+		case FNm(f) == "AppendString" && len(args) == 2 && bd(args[1]) == "ent.Caller.Function":
 			sites = append(sites, site{"function", call, []string{`cfg.FunctionKey != ""`, `ent.Caller.Defined`}})
-		case f.Name() == "AppendString" && len(args) == 2 && bd(args[1]) == "ent.Message":
+		case FNm(f) == "AppendString" && len(args) == 2 && bd(args[1]) == "ent.Message":
 			sites = append(sites, site{"message", call, []string{`cfg.MessageKey != ""`}})
-		case f.Name() == "AppendString" && len(args) == 2 && bd(args[1]) == "ent.Stack":
+		case FNm(f) == "AppendString" && len(args) == 2 && bd(args[1]) == "ent.Stack":
 			sites = append(sites, site{"stack", call, []string{`cfg.StacktraceKey != ""`, `ent.Stack != ""`}})
-		case f.Name() == "AppendString" && len(args) == 2 && strings.HasSuffix(Desc(args[1]), ".LineEnding"):
+		case FNm(f) == "AppendString" && len(args) == 2 && strings.HasSuffix(Desc(args[1]), ".LineEnding"):
 			sites = append(sites, site{"line-ending", call, []string{}})
-		case f.Name() == "writeContext":
+		case FNm(f) == "writeContext":
 			sites = append(sites, site{"context", call, []string{}})
 			okF := false
 			for _, a := range args {
 				okF = okF || Strip(a) == ssa.Value(fn.Params[2])
 			}
 			c.Check(okF, "R16.1", name, "context-fields", call.Pos(), "the context receives the call-site fields")
-		case f.Name() == "Fprint":
+		case FNm(f) == "Fprint":
 			sites = append(sites, site{"join", call, nil})
 		}
 	}
@@ -174,7 +174,7 @@ func checkC16(c *Ctx) {
 		nl := false
 		for _, in := range s.in.Block().Instrs {
 			if cl, ok := in.(*ssa.Call); ok && cl != s.in {
-				if f := CalleeFunc(cl); f != nil && f.Name() == "AppendByte" {
+				if f := CalleeFunc(cl); f != nil && FNm(f) == "AppendByte" {
 					if b, ok := constBytes(Args(cl)[1]); ok && b[0] == '\n' && Dominates(cl, s.in) {
 						nl = true
 					}
@@ -200,12 +200,12 @@ func checkC16(c *Ctx) {
 				okDef = isTab && okG
 			}
 			if cl, ok := in.(*ssa.Call); ok {
-				if f := CalleeFunc(cl); f != nil && f.Name() == "newJSONEncoder" {
+				if f := CalleeFunc(cl); f != nil && FNm(f) == "newJSONEncoder" {
 					okSpaced = Desc(cl.Call.Args[1]) == "true"
 				}
 			}
 		})
-		c.Check(okDef && okSpaced, "R16.2", nc.String(), "defaults", nc.Pos(), "an empty separator defaults to a tab and the JSON part is built in spaced mode")
+		c.Check(okDef && okSpaced, "R16.2", FStr(nc), "defaults", nc.Pos(), "an empty separator defaults to a tab and the JSON part is built in spaced mode")
 	}
 	c9EncoderPurity(c, "R16.3")
 	// ---------------- R16.4 ----------------
@@ -293,7 +293,7 @@ func mergeGuardSets(sets [][]string) [][]string {
 //	for emptiness; if non-empty: separator-if-non-empty '{' bytes '}',
 //	[newline stack], line ending.
 func c16Grammar(c *Ctx, fn *ssa.Function) {
-	name := fn.String()
+	name := FStr(fn)
 	je := c.Named(CorePath, "jsonEncoder")
 	jClone := c.Method(CorePath, "jsonEncoder", "Clone")
 	if !c.Anchor("R16.3", "zapcore.jsonEncoder.Clone", je != nil && jClone != nil) {
@@ -364,10 +364,10 @@ func c16Grammar(c *Ctx, fn *ssa.Function) {
 			if sc := StaticCallee(x); sc != nil && copying[sc] {
 				return true
 			}
-			if x.Call.IsInvoke() && x.Call.Method.Name() == "Clone" {
+			if x.Call.IsInvoke() && FNm(x.Call.Method) == "Clone" {
 				return true
 			}
-			if f := CalleeFunc(x); f != nil && (f.Name() == "Bytes" || f.Name() == "Len") && len(Args(x)) == 1 {
+			if f := CalleeFunc(x); f != nil && (FNm(f) == "Bytes" || FNm(f) == "Len") && len(Args(x)) == 1 {
 				return fromClone(st, Args(x)[0], d+1)
 			}
 			if CallBuiltin(x) == "len" {
@@ -388,11 +388,11 @@ func c16Grammar(c *Ctx, fn *ssa.Function) {
 	seqs, trunc := ConcPaths(fn, ConcCfg{
 		MaxIter: 3, Cut: &cut, Prune: true, MaxStates: 400000,
 		Inline: func(h *ssa.Function) bool {
-			switch h.Name() {
+			switch FNm(h) {
 			case "addFields", "putJSONEncoder", "getSliceEncoder", "putSliceEncoder", "closeOpenNamespaces":
 				return false
 			}
-			if rn := RecvNamed(h); rn != nil && rn.Obj().Name() == "jsonEncoder" {
+			if rn := RecvNamed(h); rn != nil && FNm(rn.Obj()) == "jsonEncoder" {
 				// a method of the JSON encoder is explored only when it is a wrapper around the steps this rule
 				// watches (addFields, closeOpenNamespaces, the release of the clone); its own encoding work is not
 				return jsonStepWrapper(h, 0)
@@ -421,10 +421,10 @@ func c16Grammar(c *Ctx, fn *ssa.Function) {
 				}
 				return "clone?" + st.Desc(args[0])
 			}
-			if call.Call.IsInvoke() && f.Name() == "Clone" {
+			if call.Call.IsInvoke() && FNm(f) == "Clone" {
 				return "clone?" + st.Desc(call.Call.Value)
 			}
-			switch f.Name() {
+			switch FNm(f) {
 			case "FullNameEncoder":
 				return "col"
 			case "addFields":
@@ -452,7 +452,7 @@ func c16Grammar(c *Ctx, fn *ssa.Function) {
 				}
 			}
 			if f.Pkg() == nil || f.Pkg().Path() != "go.uber.org/zap/buffer" || len(args) == 0 {
-				if f.Name() == "AppendString" && call.Call.IsInvoke() && len(args) == 1 {
+				if FNm(f) == "AppendString" && call.Call.IsInvoke() && len(args) == 1 {
 					return "col" // onto the column (array) encoder
 				}
 				return ""
@@ -460,7 +460,7 @@ func c16Grammar(c *Ctx, fn *ssa.Function) {
 			if !isLine(st, args[0]) {
 				return ""
 			}
-			switch f.Name() {
+			switch FNm(f) {
 			case "AppendString", "WriteString":
 				d := st.Desc(args[1])
 				if r := resolve(st, args[1]); r != args[1] {
@@ -503,7 +503,7 @@ func c16Grammar(c *Ctx, fn *ssa.Function) {
 			case "Len", "Bytes", "String", "Cap":
 				return ""
 			}
-			return "line." + f.Name()
+			return "line." + FNm(f)
 		},
 		Branch: func(cond ssa.Value, taken bool, st *ConcState) string {
 			pol := taken
@@ -532,7 +532,7 @@ func c16Grammar(c *Ctx, fn *ssa.Function) {
 				return ""
 			}
 			var subject ssa.Value
-			if f := CalleeFunc(lc); f != nil && f.Name() == "Len" && len(Args(lc)) == 1 {
+			if f := CalleeFunc(lc); f != nil && FNm(f) == "Len" && len(Args(lc)) == 1 {
 				subject = Args(lc)[0]
 			} else if CallBuiltin(lc) == "len" {
 				subject = lc.Call.Args[0]
@@ -686,7 +686,7 @@ func c16Constructor(c *Ctx, rule string) {
 				},
 			})
 			if trunc || len(seqs) == 0 {
-				c.Und(rule, fn.String(), "keeps-configuration", fn.Pos(), "path exploration incomplete")
+				c.Und(rule, FStr(fn), "keeps-configuration", fn.Pos(), "path exploration incomplete")
 				continue
 			}
 			defLE := ""
@@ -726,15 +726,15 @@ func c16Constructor(c *Ctx, rule string) {
 				}
 			}
 		}
-		c.Check(len(badStores) == 0 && nRet > 0, rule, fn.String(), "keeps-configuration", fn.Pos(), "the constructor changes nothing of the configuration it was given except LineEnding, NewReflectedEncoder and ConsoleSeparator (a sub-encoder that is nil stays nil: it decides whether a console column exists): %v", badStores)
-		c.Check(len(badLE) == 0, rule, fn.String(), "effective-line-ending", fn.Pos(), "the effective line ending is \"\" with SkipLineEnding, the default for an empty LineEnding, LineEnding itself otherwise: %v", badLE)
+		c.Check(len(badStores) == 0 && nRet > 0, rule, FStr(fn), "keeps-configuration", fn.Pos(), "the constructor changes nothing of the configuration it was given except LineEnding, NewReflectedEncoder and ConsoleSeparator (a sub-encoder that is nil stays nil: it decides whether a console column exists): %v", badStores)
+		c.Check(len(badLE) == 0, rule, FStr(fn), "effective-line-ending", fn.Pos(), "the effective line ending is \"\" with SkipLineEnding, the default for an empty LineEnding, LineEnding itself otherwise: %v", badLE)
 	}
 }
 
 // jsonStepWrapper: h (a method of jsonEncoder) calls - directly or through another such wrapper - addFields,
 // closeOpenNamespaces or putJSONEncoder, and is not one of the encoder's interface methods.
 func jsonStepWrapper(h *ssa.Function, d int) bool {
-	if d > 3 || ast.IsExported(h.Name()) || h.Name() == "clone" {
+	if d > 3 || ast.IsExported(FNm(h)) || FNm(h) == "clone" {
 		return false
 	}
 	for _, cl := range Calls(h) {
@@ -742,11 +742,11 @@ func jsonStepWrapper(h *ssa.Function, d int) bool {
 		if sc == nil {
 			continue
 		}
-		switch sc.Name() {
+		switch FNm(sc) {
 		case "addFields", "closeOpenNamespaces", "putJSONEncoder":
 			return true
 		}
-		if rn := RecvNamed(sc); rn != nil && rn.Obj().Name() == "jsonEncoder" && jsonStepWrapper(sc, d+1) {
+		if rn := RecvNamed(sc); rn != nil && FNm(rn.Obj()) == "jsonEncoder" && jsonStepWrapper(sc, d+1) {
 			return true
 		}
 	}
